@@ -259,9 +259,9 @@ Proofs/SnapChain.vos Proofs/SnapChain.vok Proofs/SnapChain.required_vos: Proofs/
 Proofs/Storage.vo Proofs/Storage.glob Proofs/Storage.v.beautified Proofs/Storage.required_vo: Proofs/Storage.v Base/Arith.vo Base/Plan.vo Base/Table.vo Model/Vmdk.vo Model/VmdkDesc.vo Proofs/VmdkDesc.vo
 Proofs/Storage.vio: Proofs/Storage.v Base/Arith.vio Base/Plan.vio Base/Table.vio Model/Vmdk.vio Model/VmdkDesc.vio Proofs/VmdkDesc.vio
 Proofs/Storage.vos Proofs/Storage.vok Proofs/Storage.required_vos: Proofs/Storage.v Base/Arith.vos Base/Plan.vos Base/Table.vos Model/Vmdk.vos Model/VmdkDesc.vos Proofs/VmdkDesc.vos
-Proofs/StreamBytes.vo Proofs/StreamBytes.glob Proofs/StreamBytes.v.beautified Proofs/StreamBytes.required_vo: Proofs/StreamBytes.v Base/Arith.vo Base/Plan.vo Model/AlignedStream.vo Model/AlignedStreamB.vo Proofs/AlignedStream.vo Proofs/AlignedStreamB.vo Proofs/BlockMapped.vo Proofs/StreamReaders.vo
-Proofs/StreamBytes.vio: Proofs/StreamBytes.v Base/Arith.vio Base/Plan.vio Model/AlignedStream.vio Model/AlignedStreamB.vio Proofs/AlignedStream.vio Proofs/AlignedStreamB.vio Proofs/BlockMapped.vio Proofs/StreamReaders.vio
-Proofs/StreamBytes.vos Proofs/StreamBytes.vok Proofs/StreamBytes.required_vos: Proofs/StreamBytes.v Base/Arith.vos Base/Plan.vos Model/AlignedStream.vos Model/AlignedStreamB.vos Proofs/AlignedStream.vos Proofs/AlignedStreamB.vos Proofs/BlockMapped.vos Proofs/StreamReaders.vos
+Proofs/StreamBytes.vo Proofs/StreamBytes.glob Proofs/StreamBytes.v.beautified Proofs/StreamBytes.required_vo: Proofs/StreamBytes.v Base/Arith.vo Base/Plan.vo Model/AlignedStream.vo Model/AlignedStreamB.vo Proofs/AlignedStream.vo Proofs/AlignedStreamB.vo Proofs/BlockMapped.vo Proofs/StreamReaders.vo Base/Table.vo Model/Vhd.vo Proofs/Vhd.vo Model/Vdi.vo Proofs/Vdi.vo Model/Vhdx.vo Proofs/Vhdx.vo Model/Hds.vo Proofs/Hds.vo Model/Qcow2.vo Proofs/Qcow2.vo Spec/Qcow2.vo Model/Vmdk.vo Proofs/Vmdk.vo
+Proofs/StreamBytes.vio: Proofs/StreamBytes.v Base/Arith.vio Base/Plan.vio Model/AlignedStream.vio Model/AlignedStreamB.vio Proofs/AlignedStream.vio Proofs/AlignedStreamB.vio Proofs/BlockMapped.vio Proofs/StreamReaders.vio Base/Table.vio Model/Vhd.vio Proofs/Vhd.vio Model/Vdi.vio Proofs/Vdi.vio Model/Vhdx.vio Proofs/Vhdx.vio Model/Hds.vio Proofs/Hds.vio Model/Qcow2.vio Proofs/Qcow2.vio Spec/Qcow2.vio Model/Vmdk.vio Proofs/Vmdk.vio
+Proofs/StreamBytes.vos Proofs/StreamBytes.vok Proofs/StreamBytes.required_vos: Proofs/StreamBytes.v Base/Arith.vos Base/Plan.vos Model/AlignedStream.vos Model/AlignedStreamB.vos Proofs/AlignedStream.vos Proofs/AlignedStreamB.vos Proofs/BlockMapped.vos Proofs/StreamReaders.vos Base/Table.vos Model/Vhd.vos Proofs/Vhd.vos Model/Vdi.vos Proofs/Vdi.vos Model/Vhdx.vos Proofs/Vhdx.vos Model/Hds.vos Proofs/Hds.vos Model/Qcow2.vos Proofs/Qcow2.vos Spec/Qcow2.vos Model/Vmdk.vos Proofs/Vmdk.vos
 Proofs/StreamReaders.vo Proofs/StreamReaders.glob Proofs/StreamReaders.v.beautified Proofs/StreamReaders.required_vo: Proofs/StreamReaders.v Base/Arith.vo Base/Plan.vo Base/Table.vo Model/AlignedStream.vo Proofs/AlignedStream.vo Model/Walk.vo Proofs/BlockMapped.vo Model/Vhd.vo Proofs/Vhd.vo Model/Vdi.vo Proofs/Vdi.vo Model/Vhdx.vo Proofs/Vhdx.vo Model/Hds.vo Proofs/Hds.vo Model/Qcow2.vo Proofs/Qcow2.vo Proofs/Qcow2Total.vo Spec/Qcow2.vo Model/Vmdk.vo Proofs/Vmdk.vo
 Proofs/StreamReaders.vio: Proofs/StreamReaders.v Base/Arith.vio Base/Plan.vio Base/Table.vio Model/AlignedStream.vio Proofs/AlignedStream.vio Model/Walk.vio Proofs/BlockMapped.vio Model/Vhd.vio Proofs/Vhd.vio Model/Vdi.vio Proofs/Vdi.vio Model/Vhdx.vio Proofs/Vhdx.vio Model/Hds.vio Proofs/Hds.vio Model/Qcow2.vio Proofs/Qcow2.vio Proofs/Qcow2Total.vio Spec/Qcow2.vio Model/Vmdk.vio Proofs/Vmdk.vio
 Proofs/StreamReaders.vos Proofs/StreamReaders.vok Proofs/StreamReaders.required_vos: Proofs/StreamReaders.v Base/Arith.vos Base/Plan.vos Base/Table.vos Model/AlignedStream.vos Proofs/AlignedStream.vos Model/Walk.vos Proofs/BlockMapped.vos Model/Vhd.vos Proofs/Vhd.vos Model/Vdi.vos Proofs/Vdi.vos Model/Vhdx.vos Proofs/Vhdx.vos Model/Hds.vos Proofs/Hds.vos Model/Qcow2.vos Proofs/Qcow2.vos Proofs/Qcow2Total.vos Spec/Qcow2.vos Model/Vmdk.vos Proofs/Vmdk.vos
